@@ -436,10 +436,30 @@ def eval_pure(fn, args, fuel=400):
             raise Unsupported("local %d read before it is set" % pl["l"])
         return env[pl["l"]]
 
+    def promoted_range(op):
+        # a promoted constant: only the constant ranges of `(a..b).contains(&x)` / `(a..=b).contains(&x)` are understood
+        bodies = fn.raw.get("promoted") or []
+        i = op["promoted"]
+        if op.get("item") not in (None, fn.id) or not (0 <= i < len(bodies)):
+            raise Unsupported("promoted constant %r" % op.get("dbg"))
+        for blk in bodies[i]["blocks"]:
+            for st in blk["stmts"]:
+                rv = st.get("rv") or {}
+                if st.get("k") == "assign" and rv.get("k") == "agg" and (rv.get("adt") or "").startswith("core::ops::range::Range") and \
+                        len(rv["ops"]) == 2 and all(o.get("k") == "const" and "int" in o for o in rv["ops"]):
+                    return ("range", rv["ops"][0]["int"], rv["ops"][1]["int"], "Inclusive" in rv["adt"])
+            t_ = blk["term"]
+            fp = (t_.get("func", {}).get("res") or {}).get("rpath") or t_.get("func", {}).get("fn") or "" if t_["k"] == "call" else ""
+            if fp.endswith("RangeInclusive::<Idx>::new") and all(o.get("k") == "const" and "int" in o for o in t_["args"]):
+                return ("range", t_["args"][0]["int"], t_["args"][1]["int"], True)
+        raise Unsupported("promoted constant %r" % op.get("dbg"))
+
     def operand(op):
         if op.get("k") == "const":
             if "int" in op:
                 return op["int"]
+            if "promoted" in op:
+                return promoted_range(op)
             raise Unsupported("non-integer constant")
         return place(op["pl"])
     bb = 0
@@ -493,9 +513,11 @@ def eval_pure(fn, args, fuel=400):
                 v = int(BYTE_CLASSES[last](argv[0], *argv[1:]))
             elif rp.endswith("From<u8>>::from") or rp.endswith("char::from_u32_unchecked") or last in ("from", "into") and len(argv) == 1 and isinstance(argv[0], int):
                 v = argv[0]
+            if v is None and last == "contains" and "ops::range::Range" in rp and len(argv) == 2 and isinstance(argv[0], tuple) and \
+                    argv[0][0] == "range" and isinstance(argv[1], int):
+                _, lo, hi, incl = argv[0]
+                v = int(lo <= argv[1] <= hi) if incl else int(lo <= argv[1] < hi)
             if v is None:
-                if rp.endswith("RangeInclusive::<Idx>::contains") or rp.endswith("::contains"):
-                    raise Unsupported("range contains")
                 raise Unsupported("call of %s" % rp)
             if t.get("dest") is None or t["dest"].get("p") or t.get("target") is None:
                 raise Unsupported("call result stored through a projection")
